@@ -90,7 +90,7 @@ var varPool15 = []string{"a", "b", "c", "A", "x"}
 var curPool15 = []string{"cur", "CUR", "k"}
 var tempPool15 = []string{"t", "T", "u"}
 var randFuncs15 = []string{"p", "q", "r"} // level = index
-var funcCase15 = map[string][]string{"p": {"p", "P"}, "q": {"q", "Q"}, "r": {"r", "R"}, "fact": {"fact", "FACT", "Fact"}, "fib": {"fib", "Fib"}, "ack": {"ack"}, "sumto": {"sumto", "SumTo"}, "iseven": {"iseven"}, "isodd": {"isodd"}}
+var funcCase15 = map[string][]string{"p": {"p", "P"}, "q": {"q", "Q"}, "r": {"r", "R"}, "fact": {"fact", "FACT", "Fact"}, "fib": {"fib", "Fib"}, "ack": {"ack"}, "sumto": {"sumto", "SumTo"}, "iseven": {"iseven"}, "isodd": {"isodd"}, "firstover": {"firstover", "FirstOver"}}
 
 func (g *g15) pick(l []string) string { return l[g.r.Intn(len(l))] }
 func (g *g15) chance(p float64) bool  { return g.r.Float64() < p }
@@ -194,6 +194,8 @@ func (g *g15) callExpr(c ctx15, d int) *pExpr {
 		return call(name, bounded(6))
 	case "iseven", "isodd":
 		return call(name, bounded(7))
+	case "firstover":
+		return call(name, bounded(9))
 	case "p":
 		if g.chance(0.25) {
 			return call(name, g.expr(c, d-1), g.expr(c, d-1))
@@ -402,6 +404,27 @@ func (g *g15) template(c ctx15, name string) []*pStmt {
 				ifs(cmp(">", acc, litInt(12)), ret(arith("+", acc, litInt(1000)))),
 			}},
 			ret(acc))
+	case "firstover":
+		// a cursor loop inside a function that is left by RETURN (directly or from a nested block) while the
+		// loop's block is open; the loop variable is declared by the loop or beforehand
+		v := pvar("fv")
+		var body []*pStmt
+		body = append(body, &pStmt{K: "cursor", X: "fc", Rows: []value.Primary{value.NewInteger(1), value.NewInteger(int64(2 + g.r.Intn(3))), value.NewInteger(int64(5 + g.r.Intn(3))), value.NewInteger(8)}}, &pStmt{K: "open", X: "fc"})
+		decl := g.chance(0.5)
+		if !decl {
+			body = append(body, &pStmt{K: "var", X: "fv"})
+		}
+		var loop []*pStmt
+		if g.chance(0.5) {
+			loop = append(loop, &pStmt{K: "var", X: "w", E: arith("+", v, one)})
+		}
+		if g.chance(0.5) {
+			loop = append(loop, ifs(cmp(">", v, n), ret(v)))
+		} else {
+			loop = append(loop, ifs(cmp(">", v, litInt(0)), &pStmt{K: "var", X: "fv2", E: v}, ifs(cmp(">", pvar("fv2"), n), ret(arith("+", pvar("fv2"), litInt(100))))))
+		}
+		body = append(body, &pStmt{K: "whilein", X: "fc", Vars: []string{"fv"}, Decl: decl, Body: loop}, ret(litInt(0)))
+		mk("firstover", []pParam{{X: "n"}}, body...)
 	case "iseven":
 		// mutual recursion; both are declared together
 		pre2 := pre
@@ -413,7 +436,7 @@ func (g *g15) template(c ctx15, name string) []*pStmt {
 	return decls
 }
 
-var templates15 = []string{"fact", "fib", "ack", "sumto", "iseven"}
+var templates15 = []string{"fact", "fib", "ack", "sumto", "iseven", "firstover"}
 
 func (g *g15) block(c ctx15, n int) []*pStmt {
 	var out []*pStmt
